@@ -352,6 +352,9 @@ const Scn SCN[] = {
   {"idle_exit_two", 0, 2, 10, 2, {"ez", "ze"}, "", true, 1, 1, 2, 2},
   {"throwing_results", 1, 1, 100, 4, {"Rx"}, "S", false, 2, 0, 3, 1},
   {"drain_then_stop", 1, 1, 100, 4, {"er"}, "DS", false, 2, 0, 3, 1},
+  // submissions issued well after the terminator returned, through each submit path: must be refused, nothing may start
+  {"submit_after_shutdown", 1, 2, 100, 4, {"ezzt", "zze"}, "H", false, 1, 0, 2, 1},
+  {"submit_after_stop", 1, 2, 100, 4, {"ezzt", "zzr"}, "S", false, 1, 0, 2, 1},
 };
 } // namespace
 
